@@ -390,4 +390,36 @@ theorem find_refines {s : LL} {l : Spec} (inv : Inv s l) (node : Option Ref)
     have hd := dropWhile_split (v0 := v0) L1 L2 hn1
     simp only [LL.find, specFind, hd, this, bind, Except.bind, pure, Except.pure]
 
+/-- a handle argument is acceptable iff it is NULL or names an element -/
+theorem handleOk_iff {l : Spec} {n : Option Ref} :
+    handleOk l n = true ↔ ∀ r, n = some r → r ∈ ids l := by
+  cases n with
+  | none => simp [handleOk]
+  | some r => simp [handleOk, ids]
+
+/-- insert-before / append-after add at most one element -/
+theorem length_insBefore_le (n : Ref) (x : Ref × Val) (l : Spec) :
+    (insBefore n x l).length ≤ l.length + 1 := by
+  induction l with
+  | nil => simp [insBefore]
+  | cons a l ih => simp only [insBefore]; split <;> simp <;> omega
+
+theorem length_insAfter_le (n : Ref) (x : Ref × Val) (l : Spec) :
+    (insAfter n x l).length ≤ l.length + 1 := by
+  induction l with
+  | nil => simp [insAfter]
+  | cons a l ih => simp only [insAfter]; split <;> simp <;> omega
+
+/-- the state after `muggle_linked_list_init` represents the empty sequence -/
+theorem inv_init {c : Nat} {s : LL} (h : init c = some s) : Inv s [] ∧ s.mem.cells.length = 0 := by
+  have hm : MInv emptyMem [] := by
+    refine ⟨⟨by simp [path, ids], ?_⟩, by simp⟩
+    simp [path, ids, Link.Links, nxt, prv, DMem.get, emptyMem]
+  unfold init at h
+  split at h
+  · split at h
+    · simp at h
+    · injection h with h; subst h; exact ⟨⟨hm, rfl, by simp⟩, rfl⟩
+  · injection h with h; subst h; exact ⟨⟨hm, rfl, by simp⟩, rfl⟩
+
 end MgProof.C11.LL
